@@ -236,9 +236,67 @@ def check_library(ctx, lib):
         ctx.expect(ok, R, "compound_eq|same-type-only", site_of(fn), "objects of different types are never equal; same type compares with eq; found %s" % show(t, maxdepth=6)[:200])
 
 
+def check_generated_instances(ctx, fb):
+    """Thorough tier: the impls the derive actually generated for the #[compound] structs of the
+    in-repo examples / tests (read from the type-checked expansion, not run): every field of the
+    generated inner struct is listed by children(), walked, hashed, compared pairwise and cloned."""
+    R = "C20.K5.generated-instances"
+    n = 0
+    for key in sorted(fb.files):
+        name, is_test, is_bin = key
+        if name in ("proto_vulcan", "proto_vulcan_macros"):
+            continue
+        c = fb.crate(*key)
+        ev = sym.Evaluator(c, inline=lambda p_, f_: False)
+        for apath, adt in sorted(c.adts.items()):
+            if not apath.split("::")[-1].startswith("_Inner"):
+                continue
+            vs = adt.get("variants", [])
+            if len(vs) != 1:
+                continue
+            F = [f.get("name") for f in vs[0].get("fields", [])]
+            n += 1
+            S = ("param", 0, "self")
+
+            def fn_of(trait, meth):
+                for p_, fn in c.fns.items():
+                    if p_.startswith("<%s as " % apath) and p_.endswith("%s>::%s" % (trait, meth)) and "hir" in fn:
+                        return fn
+                return None
+
+            site = c.name
+            for trait, meth in (("CompoundObject", "children"), ("CompoundWalkStar", "compound_walk_star"), ("Hash", "hash"), ("PartialEq", "eq"), ("Clone", "clone")):
+                fn = fn_of(trait, meth)
+                k = "%s::%s|%s::%s" % (c.name, apath.split("::")[-1], trait, meth)
+                if not ctx.expect(fn is not None, R, k + "|generated", site, "generated %s::%s not found for %s" % (trait, meth, apath)):
+                    continue
+                ctx.fn_seen(fn["npath"])
+                t = ev.fn_term(fn)
+                site = ":".join(fn["span"].split(":")[:2])
+                selfs = [x[2] for x in sym.subterms(t) if x[0] == "field" and x[1] == S]
+                others = [x[2] for x in sym.subterms(t) if x[0] == "field" and x[1][:2] == ("param", 1)]
+                seen = list(dict.fromkeys(selfs))
+                if meth == "eq":
+                    pairs = [(c_[2][0][2], c_[2][1][2]) for c_ in sym.calls(t, "eq") if len(c_[2]) == 2 and c_[2][0][0] == "field" and c_[2][1][0] == "field" and c_[2][0][1] == S and c_[2][1][1][:2] == ("param", 1)]
+                    ok = sorted(set(pairs)) == sorted((f, f) for f in F)
+                    ctx.expect(ok, R, k + "|pairwise-all-fields", site, "generated eq must compare every field with the same field of `other`; fields %s, compared pairs %s" % (F, sorted(set(pairs))))
+                elif meth == "hash":
+                    hs = [c_[2][0][2] for c_ in sym.calls(t, "hash") if c_[2] and c_[2][0][0] == "field" and c_[2][0][1] == S]
+                    ctx.expect(list(dict.fromkeys(hs)) == F, R, k + "|all-fields", site, "generated hash must feed every field; fields %s, hashed %s" % (F, hs))
+                elif meth == "compound_walk_star":
+                    ws = [c_[2][0][2] for c_ in sym.calls(t, "compound_walk_star") if c_[2] and c_[2][0][0] == "field" and c_[2][0][1] == S and c_[2][1][:2] == ("param", 1)]
+                    ctx.expect(list(dict.fromkeys(ws)) == F, R, k + "|all-fields", site, "generated walk* must walk every field in the given substitution; fields %s, walked %s" % (F, ws))
+                else:
+                    ctx.expect(seen == F, R, k + "|all-fields", site, "generated %s must mention every field of the struct in declaration order; fields %s, found %s" % (meth, F, seen))
+    ctx.count("generated_compound_structs", n)
+    ctx.floor(R, n, 2, "generated #[compound] inner structs in examples/tests")
+
+
 def run(ctx, fb, cfg):
     lib = fb.lib
     R = "C20."
+    if cfg == "all-targets":
+        check_generated_instances(ctx, fb)
     feats = {"clpfd"} if cfg != "none" else None
     n = traversal.run_table(ctx, lib, R + "K5.traversal", features=feats, variants=("Cons", "Compound"))
     ctx.floor(R + "K5.traversal", n, 8, "traversal functions")
